@@ -273,7 +273,11 @@ func genMsg(r *simrt.RNG) msgSpec {
 		m.Body = []msgPart{pl}
 		return m
 	}
-	m.Body = genParts(r, 1+r.Intn(7), true)
+	n := 1 + r.Intn(7)
+	if r.Intn(6) == 0 {
+		n = 9 + r.Intn(6) // a long message: more placeholders than any small-case shortcut covers
+	}
+	m.Body = genParts(r, n, true)
 	return m
 }
 
